@@ -235,65 +235,8 @@ def regen_diff(res):
 
 
 def hostile_workload(res, tier):
-    """Loads of files 'from a newer / broken SunVox' (unknown module types, unit and enum CVALs outside their
-    enumerations, garbage option records) plus ordinary API use.  The class-level metadata is shared by every
-    instance, so nothing here may alter it: compare_all runs again afterwards."""
-    import random
-    import struct
-    from io import BytesIO
-    import rv.api as api
-    from rv.modules import MODULE_CLASSES
-    from .. import iffparse
-    rng = random.Random(env.shard_seed(13))
-    sources = []
-    for f in env.fixtures():
-        with open(f, "rb") as fh:
-            sources.append(fh.read())
-    sp = spec.load()
-    for T, t in sorted(sp.items()):
-        if T == "Output":
-            continue
-        cls = MODULE_CLASSES[t.mtype]
-        m = cls()
-        sources.append(api.Synth(m).read())
-        # ordinary API use under every unit / enum member
-        for c in t.controllers:
-            if c.kind == "enum":
-                for n, v in c.members:
-                    setattr(m, c.name, v)
-            elif c.kind == "dependent":
-                for unit in c.ranges:
-                    setattr(m, c.depends_on, getattr(cls, c.enum)[unit])
-                    setattr(m, c.name, c.ranges[unit][1])
-                    m.get_raw(c.name)
-                    cls.controllers[c.name].pattern_value(m, c.ranges[unit][1])
-    n = 0
-    per = 6 if tier == "quick" else 40
-    for raw in sources:
-        chunks = [(c[0], c[1]) for c in iffparse.parse(raw)]
-        for k in range(per):
-            out = [list(c) for c in chunks]
-            kind = rng.choice(("cval-enum", "cval-enum", "styp", "chdt", "cval-big"))
-            idx_cval = [i for i, c in enumerate(out) if c[0] == b"CVAL"]
-            if kind in ("cval-enum", "cval-big") and idx_cval:
-                for i in rng.sample(idx_cval, min(len(idx_cval), rng.randint(1, 4))):
-                    out[i][1] = struct.pack("<i", rng.choice([7, 8, 9, 10, 11, 17, 99, 255]) if kind == "cval-enum" else rng.choice([-5, 70000, 2 ** 31 - 1]))
-            elif kind == "styp":
-                idx = [i for i, c in enumerate(out) if c[0] == b"STYP"]
-                if idx:
-                    out[rng.choice(idx)][1] = rng.choice([b"Resampler\0", b"Amplifier2\0", b"New module\0", b"\0"])
-            else:
-                idx = [i for i, c in enumerate(out) if c[0] == b"CHDT" and 0 < len(c[1]) <= 64]
-                if idx:
-                    i = rng.choice(idx)
-                    out[i][1] = bytes(rng.randrange(256) for _ in range(len(out[i][1])))
-            try:
-                api.read_sunvox_file(BytesIO(iffparse.build(out)))
-                res.count("hostile_loads_completed")
-            except Exception:
-                res.count("hostile_loads_raised")
-            n += 1
-    res.count("hostile_loads", n)
+    from .. import hostile
+    hostile.run(res, tier)
 
 
 def run_shard(spec_, res):
